@@ -163,8 +163,8 @@ Proof.
   - split; [assumption|]. exists (TMain x0 ks objs). split; [assumption|exact I].
   - rewrite EC. assumption.
   - apply set_allocations_ok in SA. destruct SA as (_ & _ & lm & _ & L2 & L3).
-    rewrite EC'. destruct (cgl (consumers w1) c) as [g'|] eqn:G'; [left|right; reflexivity].
-    apply L3 in G'. destruct (L2 c Hin _ B) as (g2 & G2 & Lt). rewrite G' in G2. inv G2. exists g2. auto.
+    rewrite EC'. destruct (cgl (consumers w1) c) as [g'|] eqn:G'; [|exists 0; right; reflexivity].
+    apply L3 in G'. destruct (L2 c Hin _ B) as (g2 & G2 & Lt). rewrite G' in G2. inv G2. exists g2. left. auto.
 Qed.
 
 Lemma c06_null_detail i r c ts' d' :
@@ -242,27 +242,28 @@ Proof.
     assert (NC : forall u, Created cf reqs s d j k u -> u <> c).
     { intros u (k' & L & _ & N & _) ->. destruct (Hex k' ltac:(lia)) as (g & G). congruence. }
     destruct t1; cbn [AInv] in HP; try contradiction; cbn [tstep] in Hs.
-    + inv Hs. apply SAME. congruence.
-    + apply SAME. repeat bmH Hs; inv Hs; congruence.
-    + apply SAME. destruct todo as [|e rest]; [inv Hs; congruence|]. cbv zeta in Hs.
-      destruct (rq_attrs _ _ e) as [[proj user] ty].
-      destruct (find_cons (D k) (ci_uuid e)); destruct (_ && _); inv Hs; apply aux_names_rps.
+    + inv Hs. first [apply ole_refl|first [apply ole_refl|apply SAME; congruence]].
+    + repeat bmH Hs; inv Hs; first [apply ole_refl|apply SAME; congruence].
+    + destruct todo as [|e rest]; [inv Hs; first [apply ole_refl|apply SAME; congruence]|]. cbv zeta in Hs.
+      destruct (rq_attrs _ _ e) as [[proj user] ty]. apply SAME.
+      destruct (find_cons (D k) (ci_uuid e)); destruct (_ && _); injection Hs as <- _; apply aux_names_rps.
     + destruct (rq_attrs _ _ c0) as [[proj user] ty]. destruct (find_cons (D k) (ci_uuid c0)) eqn:FC.
-      * inv Hs. apply SAME. congruence.
+      * inv Hs. first [apply ole_refl|first [apply ole_refl|apply SAME; congruence]].
       * injection Hs as Hd _. rewrite <- Hd. unfold cgen_of, find_cons. cbn [consumers set_consumers].
         change (ole (cgl (consumers (D k)) c) (cgl (consumers (D k) ++ [mkCons (ci_uuid c0) proj user ty 0]) c)).
         rewrite cgl_app1. destruct (Hex k (Nat.le_refl k)) as (g & G). unfold cgen_of in G.
         change (cgl (consumers (D k)) c = Some g) in G. rewrite G. apply ole_refl.
-    + apply SAME. destruct (rq_attrs _ _ c0) as [[proj user] ty]. repeat bmH Hs; inv Hs; congruence.
-    + apply SAME. destruct todo as [|w rest]; [inv Hs; congruence|]. cbv zeta in Hs.
-      destruct w; [inv Hs; congruence|]. destruct (find_rp (D k) (ai_rp a)); inv Hs; congruence.
+    + destruct (rq_attrs _ _ c0) as [[proj user] ty]. repeat bmH Hs; inv Hs; first [apply ole_refl|apply SAME; congruence].
+    + destruct todo as [|w rest]; [inv Hs; first [apply ole_refl|apply SAME; congruence]|]. cbv zeta in Hs.
+      destruct w; [inv Hs; first [apply ole_refl|apply SAME; congruence]|].
+      destruct (find_rp (D k) (ai_rp a)); inv Hs; first [apply ole_refl|apply SAME; congruence].
     + destruct HP as (-> & _ & F & (O1 & _)).
-      destruct (main_txn x0 ks objs (D k)) as [d1|e] eqn:E; inv Hs; [|apply SAME; congruence].
+      destruct (main_txn x0 ks objs (D k)) as [d1|e] eqn:E; inv Hs; [|first [apply ole_refl|apply SAME; congruence]].
       apply main_txn_spec in E. destruct E as (_ & w0 & l0 & w1 & S0 & CG & SA & CE).
       unfold cgen_of, find_cons. rewrite CE.
       change (ole (cgl (consumers (D k)) c) (cgl (consumers w1) c)). rewrite <- CG.
       apply (sa_keeps _ _ _ _ SA). eapply objs_amt; eassumption.
-    + destruct todo as [|u rest]; [inv Hs; apply SAME; congruence|]. injection Hs as Hd _. rewrite <- Hd.
+    + destruct todo as [|u rest]; [inv Hs; first [apply ole_refl|apply SAME; congruence]|]. injection Hs as Hd _. rewrite <- Hd.
       assert (Hu : u <> c) by (apply NC, HP; left; reflexivity).
       apply ole_eq. unfold cgen_of, find_cons, delete_consumers_if_no_allocations. cbn [consumers set_consumers].
       match goal with |- option_map _ (find_cons_l (filter ?f _) _) = _ =>
@@ -331,9 +332,43 @@ Proof.
   assert (Hne : ki <> kj) by congruence.
   assert (AL : forall k, exists g0, cgen_of (D cf reqs s d k) c = Some g0).
   { intros k. apply (cons_all cf reqs s d c Hall Hc k k). lia. }
-  destruct Ai as [(gi & Gi' & Li)|N]; [|destruct (AL (S ki)); congruence].
-  destruct Aj as [(gj & Gj' & Lj)|N]; [|destruct (AL (S kj)); congruence].
+  destruct Ai as (gi & [(Gi' & Li)|N]); [|destruct (AL (S ki)); congruence].
+  destruct Aj as (gj & [(Gj' & Lj)|N]); [|destruct (AL (S kj)); congruence].
   destruct (Nat.lt_ge_cases ki kj) as [Hlt|Hge].
   - destruct (cons_mono cf reqs s d c Hall Hc (S ki) kj ltac:(lia) _ Gi') as (g2 & G2 & L2). rewrite Gj in G2. inv G2. lia.
   - destruct (cons_mono cf reqs s d c Hall Hc (S kj) ki ltac:(lia) _ Gj') as (g2 & G2 & L2). rewrite Gi in G2. inv G2. lia.
+Qed.
+
+(* the premise of c06_commit_generation about cleared consumers is needed: two concurrent requests clearing
+   the same consumer with the same generation both succeed; the second one finds no rows, performs no
+   compare-and-swap, and at its commit step the consumer no longer exists ("double wipe") *)
+Definition commit_with (cf : cfg) (reqs : list req) (s : list nat) (d : db) (i : nat) (c g : Z) (k : nat) : bool :=
+  match nth_error (fst (at_step cf reqs s d k)) i with
+  | Some (TProvWrite _ _) | Some (TMain _ _ _) => oeqb (cgen_of (snd (at_step cf reqs s d k)) c) (Some g)
+  | _ => false
+  end.
+Lemma commit_with_true cf reqs s d i c g k :
+  commits_at cf reqs s d i k -> cgen_of (snd (at_step cf reqs s d k)) c = Some g -> commit_with cf reqs s d i c g k = true.
+Proof.
+  intros (_ & t & Ht & Hc) G. unfold commit_with. rewrite Ht, G.
+  destruct t; try contradiction; cbn; apply Z.eqb_refl.
+Qed.
+
+Lemma c06_commit_generation_double_wipe_refuted :
+  exists cf reqs s d i r c g,
+    nth_error reqs i = Some r /\ carries_cons_gen r c (Some g) /\ req_wf r = true /\
+    succeeded (fst (exec cf reqs s d)) i /\
+    ~ exists k, commits_at cf reqs s d i k /\ cgen_of (snd (at_step cf reqs s d k)) c = Some g.
+Proof.
+  set (wipe := AllocPut 28 (mkConsIn 7 [] (Some 5) (Some 6) (Some 0) None)).
+  exists (mkCfg 900 901), [wipe; wipe], [0; 1; 1; 1; 0; 0]%nat,
+         (mkDb [mkRp 1 1 0 None 1] [mkInv 1 0 10 0 1 10 1 1 0] [mkAlloc 7 1 0 1] [mkCons 7 5 6 None 0]
+               [5] [6] [] [] [] [] [] []), 0%nat, wipe, 7, 0.
+  split; [reflexivity|]. split; [|split; [reflexivity|split]].
+  - eexists. split; [left; reflexivity|]. split; [reflexivity|]. split; [reflexivity|]. cbn. lia.
+  - exists (ok 204). split; [vm_compute; reflexivity|cbn; lia].
+  - intros (k & Hc & G). pose proof (commit_with_true _ _ _ _ _ _ _ _ Hc G) as B. destruct Hc as (H2 & _).
+    destruct k as [|[|[|[|[|[|k]]]]]];
+      try (cbn in H2; destruct k; discriminate);
+      match type of B with ?x = true => assert (N : x = false) by (vm_compute; reflexivity) end; congruence.
 Qed.
